@@ -29,8 +29,10 @@ from typing import Any, Optional
 from .core import AnalysisError, FuncInfo, Index, dotted, unparse
 
 S_MAX = 4102444800          # 2100-01-01T00:00:00Z
+S_MIN = -2208988800         # 1900-01-01T00:00:00Z (instants before the epoch
+                            # are legal timestamps: S may be negative)
 F_MAX = 999_999
-BOUNDS = {"S": (0, S_MAX), "F": (0, F_MAX), "D": (0, F_MAX),
+BOUNDS = {"S": (S_MIN, S_MAX), "F": (0, F_MAX), "D": (0, F_MAX),
           "R": (0, 999)}
 # "R": the sub-microsecond remainder (0..999 ns) of a span time given in
 # nanoseconds - OTel times have nanosecond resolution.
@@ -346,6 +348,16 @@ class TimeInterp:
         if isinstance(op, ast.Div) and b.is_const() and b.coef("1"):
             form = {n: c / b.coef("1") for n, c in a.form.items()}
             return self._mk(form, "float", a, b, e)
+        if isinstance(op, ast.FloorDiv) and b.is_const() and typ == "float" \
+                and b.coef("1") == 1:
+            # floor of S + (fraction in [0, 1)): the whole seconds, for
+            # negative S as well (floor, unlike int(), rounds down)
+            fracp = {k: c for k, c in a.form.items() if k != "S"}
+            if a.coef("S").denominator == 1 and all(
+                    c >= 0 for c in fracp.values()) and Num(
+                    fracp).max_abs() + a.err < 1 and a.err < Fraction(
+                    1, 10**6):
+                return Num({"S": a.coef("S")}, "float", True, Fraction(0))
         if isinstance(op, (ast.FloorDiv, ast.Mod)) and b.is_const() \
                 and typ == "int" and b.coef("1") > 0:
             d = b.coef("1")
@@ -563,6 +575,18 @@ class TimeInterp:
                 c >= 0 for c in frac_part.values()) and \
                 Num(frac_part).max_abs() + v.err < 1 and \
                 Num({"S": v.coef("S")}).max_abs() < 2 ** 52:
+            if BOUNDS["S"][0] * v.coef("S") < 0 and Num(
+                    frac_part).max_abs() > 0:
+                # int() truncates toward zero: for S < 0 and a non-zero
+                # fraction the result is S + 1, not the floored S that the
+                # non-negative microsecond field is relative to
+                self.hazards.append((
+                    e, f"int() of {v.show()} truncates toward zero: for an "
+                       "instant before 1970 with a non-zero fraction the "
+                       "whole seconds come out one too high (the "
+                       "microsecond field counts up from the *floored* "
+                       "second)"))
+                return Num(v.form, "int", False, Fraction(1))
             self.trace.append(f"{unparse(e)} : truncation recovers "
                               f"{v.coef('S')}*S")
             return Num({"S": v.coef("S")}, "int", True)
